@@ -270,6 +270,9 @@ type ShotRec struct {
 	G        int64
 	Enter    time.Time
 	Exit     time.Time
+	// CtxDone: the gun's own context (GunDeps.Ctx, what a real gun makes its requests with) was already done when the
+	// shot began
+	CtxDone bool
 }
 
 type GunWorld struct {
@@ -455,6 +458,7 @@ func (g *Gun) Bind(aggr core.Aggregator, deps core.GunDeps) error {
 
 func (g *Gun) Shoot(ammo core.Ammo) {
 	enter := time.Now()
+	ctxDone := g.Deps.Ctx != nil && g.Deps.Ctx.Err() != nil
 	overlap := !g.inShot.CompareAndSwap(0, 1)
 	idx := int(g.w.shotIdx.Add(1)) - 1
 	it, _ := ammo.(*Item)
@@ -489,7 +493,7 @@ func (g *Gun) Shoot(ammo core.Ammo) {
 	if it != nil && it.Released() > 0 {
 		it.usedAfterRelease.Store(true)
 	}
-	rec := ShotRec{Gun: g.Idx, Instance: g.Deps.InstanceID, ItemID: itemID, G: vf.GoID(), Enter: enter, Exit: time.Now()}
+	rec := ShotRec{Gun: g.Idx, Instance: g.Deps.InstanceID, ItemID: itemID, G: vf.GoID(), Enter: enter, Exit: time.Now(), CtxDone: ctxDone}
 	g.w.mu.Lock()
 	g.w.Shots = append(g.w.Shots, rec)
 	if overlap {
